@@ -1,4 +1,4 @@
-//! usage: miri-pool <scenario 0..4> <threads> [<hash seed> [c05|c12]]
+//! usage: miri-pool <scenario 0..5> <threads> [<hash seed> [c05|c12]]
 //! Prints `DIGEST <hex>` : FNV of every observable bit pattern of the scenario
 //! (per-epoch losses, accuracies, final parameters, validate result, predict_batch outputs
 //! in order).
@@ -50,6 +50,15 @@ fn scenario(id: usize) -> (Network, usize, usize, usize, usize, usize, usize) {
             net.set_optimizer(optimizer::RMSprop::create(0.01, 0.9, 1e-8, None, Some(0.5), true));
             (net, 4, 2, 5, 2, 3, 5)
         }
+        5 => {
+            // deconvolution and a five-filter convolution (parallel-over-filters code paths)
+            let mut net = Network::new(tensor::Shape::Triple(1, 3, 3));
+            net.deconvolution(2, (2, 2), (1, 1), (0, 0), Activation::Tanh, None);
+            net.convolution(5, (2, 2), (1, 1), (0, 0), (1, 1), Activation::LeakyReLU, Some(0.5));
+            net.dense(2, Activation::Linear, true, None);
+            net.set_optimizer(optimizer::AdamW::create(0.01, 0.9, 0.999, 1e-8, 0.01));
+            (net, 9, 2, 6, 3, 3, 5)
+        }
         4 => {
             // one batch of 24 samples: the per-sample map is split into leaves of up to
             // three samples, differently for different pool widths
@@ -100,6 +109,8 @@ fn main() {
         if id == 1 {
             let _ = net_in;
             t.reshape(tensor::Shape::Triple(1, 5, 5))
+        } else if id == 5 {
+            t.reshape(tensor::Shape::Triple(1, 3, 3))
         } else {
             t
         }
